@@ -23,6 +23,14 @@ C = {
    "RE2 patterns and context values, each executed as a real dgrep session under a seeded schedule (5 % over SSH) and compared with a reference grep written from the statement. "
    "Input-dominated property: the simulator contributes the reader/filter pipeline schedules; the small scope is exhaustive, the rest is sampled.",
    "deterministic simulation executing exhaustive small-scope + seeded random inputs; reference-grep oracle"),
+ "C07": ("exploration", "5 C07",
+   "Seeded simulation of non-plain sessions against 1-5 real dservers over the simulated network with per-server latency, chunking and pacing; every output record must be "
+   "exactly one generated line labelled with its host, glob-derived source id and running number, per (host,file) complete and in order.",
+   "deterministic simulation: several SSH servers on a simulated network, per-source delays, record-attribution oracle"),
+ "C12": ("exploration", "5 C12",
+   "End-to-end differential: generated regexes/flags/option values travel through option serialisation (map order is a simulator decision), base64, stream segmentation down to "
+   "1 byte and the server's re-assembly; the delivered lines must equal a reference grep applied to the pattern compiled directly by the harness, and the output mode must be the one requested.",
+   "deterministic simulation: seeded request generation x stream segmentation x map-order decisions, direct-compile differential oracle"),
 }
 
 checks = []
